@@ -5,14 +5,18 @@ Specs: MqttConnCap.tla, MqttConnCap_Gen.tla, MqttConnCap_Trace.tla.  Entry point
 from lib.vlib import jdump
 from props._mqtt import PKG, validate_traces, short
 
-MC = ("SPECIFICATION CSpec\nCONSTANTS\n  Cap = %d\n  Ids = {\"a\", \"b\", \"c\"}\n  ConnsC <- %s\n  IdOf <- %s\nVIEW cview\n"
+MC = ("SPECIFICATION CSpec\nCONSTANTS\n  Cap = %d\n  Ids = {\"a\", \"b\", \"c\"}\n  ConnsC <- %s\n  IdOf <- %s\n  StaleTakeover = %s\nVIEW cview\n"
       "INVARIANTS CapHolds ReleaseReusable\nPROPERTIES NoAcceptAboveCap RefusedOnlyAtCap TakeoverKeepsCount\n")
-GEN = ("SPECIFICATION GSpec\nCONSTANTS\n  Cap = %d\n  Ids = {\"a\", \"b\", \"c\", \"d\", \"e\"}\n  ConnsC <- GenConns\n  IdOf <- GenId\n  MaxStepsC = 12\n")
+GEN = ("SPECIFICATION GSpec\nCONSTANTS\n  Cap = %d\n  Ids = {\"a\", \"b\", \"c\", \"d\", \"e\"}\n  ConnsC <- GenConns\n  IdOf <- GenId\n  StaleTakeover = FALSE\n"
+       "  MaxStepsC = 12\n")
+# schedules with attempts parked in the Connect pipeline (between the early check and the registration)
+GEN_PARK = ("SPECIFICATION PSpec\nCONSTANTS\n  Cap = %d\n  Ids = {\"a\", \"b\", \"c\"}\n  ConnsC <- ParkConns\n  IdOf <- ParkId\n  StaleTakeover = FALSE\n"
+            "  MaxStepsC = 14\n")
 TRACE_CFG = "SPECIFICATION TSpec\nCONSTRAINT HWM\nPOSTCONDITION Accepted\nINVARIANT CapHolds\n"
 
 
 def _ph(ctx, name):
-    """sub-phases mqtt-mc / mqtt-mbt / mqtt-tv; VERIF_PHASES=mqtt (the switch props/c17.py uses) selects all of them"""
+    """sub-phases mqtt-mc / mqtt-mbt / mqtt-gated / mqtt-tv; VERIF_PHASES=mqtt (the switch props/c17.py uses) selects all of them"""
     import os
     sel = (os.environ.get("VERIF_PHASES") or "").split(",")
     if sel == [""] or name in sel:
@@ -23,13 +27,23 @@ def _ph(ctx, name):
 def run_mqtt(ctx):
     ctx.assumptions += ["MQTT cap: clients use cleanSession=false (a clean session's teardown triggers the C16 finding and would entangle "
                         "the properties); 'connected clients' = entries of Broker.clients, sampled under Broker.Lock, and the slots the "
-                        "contract holds between CONNACK(accepted) and the end of the broker's teardown of that connection"]
+                        "contract holds between CONNACK(accepted) and the end of the broker's teardown of that connection",
+                        "MQTT cap, gated schedules: attempts are parked in the Connect (authentication) pipeline of the harness, i.e. between "
+                        "checkConnectPermission and the registration under the broker lock (no hook in /repo)"]
     if _ph(ctx, "mqtt-mc"):
         for cap, conns, idof in ((1, "MCConns", "MCId2"), (2, "MCConns5", "MCId5")) if ctx.quick else ((1, "MCConns5", "MCId5"), (2, "MCConns5", "MCId5"), (3, "MCConns5", "MCId5")):
-            r = ctx.tlc_mc("MqttConnCap", MC % (cap, conns, idof), label="MQTT cap %d, early check + locked register + remove, all interleavings" % cap, timeout=600)
+            r = ctx.tlc_mc("MqttConnCap", MC % (cap, conns, idof, "FALSE"), label="MQTT cap %d, early check + locked register + remove, all interleavings" % cap, timeout=600)
             ctx.log("MQTT connection-cap model (cap %d): %d distinct states" % (cap, r.distinct))
+        # a takeover decided from the lookup of the early check (before the Connect pipeline ran) must be refuted
+        r = ctx.tlc_mc("MqttConnCap", MC % (1, "MCConns", "MCId2", "TRUE"), expect_ok=False, count=False,
+                       label="MQTT cap: takeover decided at the early check (must be refuted)", timeout=600)
+        if r.ok:
+            ctx.inconclusive("the MQTT connection-cap model does not refute a takeover decided from a stale lookup")
+        ctx.log("MQTT connection-cap model with a stale takeover decision refuted: %s" % r.violated)
     if _ph(ctx, "mqtt-mbt"):
         _mbt(ctx)
+    if _ph(ctx, "mqtt-gated"):
+        _gated(ctx)
     if _ph(ctx, "mqtt-tv"):
         _tv(ctx)
 
@@ -60,6 +74,85 @@ def _mbt(ctx):
     for m in [x for x in recs if x.get("k") == "mismatch"]:
         ctx.violation({"kind": "mqtt-seq", "what": m["kind"]}, "MQTT connection cap, step %d: %s" % (m["step"], m["what"]), m)
     ctx.sample({"kind": "mqtt-cap-scenario", "steps": [short(s, 160) for s in behs[0][:6]]})
+
+
+def _gated(ctx):
+    behs = []
+    for cap in (1, 2):
+        behs += ctx.tlc_simulate("MqttConnCap_Gen", GEN_PARK % cap, num=60 if ctx.quick else 600, depth=15, timeout=600)
+    seen, uniq = set(), []
+    for b in behs:
+        key = jdump(b)
+        if key not in seen and len(b) > 1:
+            seen.add(key)
+            uniq.append(b)
+    behs = uniq
+    inp = ctx.path("c17m_park.ndjson")
+    with open(inp, "w") as fh:
+        for b in behs:
+            fh.write(jdump(b) + "\n")
+    tp = ctx.path("c17m_gated.ndjson")
+    rc, out = ctx.go_test(PKG, "^TestVerifC17MqttGated$", env={"VERIF_IN": inp, "VERIF_OUT": tp}, timeout=1500)
+    ev = ctx.read_ndjson(tp)
+    if rc != 0 or not ev:
+        ctx.inconclusive("C17 MQTT gated harness failed:\n" + out[-3000:])
+    hf = [e for e in ev if e.get("ev") == "harness-failure"]
+    if len(hf) > max(1, len(behs) // 50):
+        ctx.inconclusive("C17 MQTT gated harness could not drive the broker in %d of %d schedules: %s" % (len(hf), len(behs), hf[0]))
+    if hf:
+        from props._mqtt import split_traces
+        keep = []
+        for a, b in split_traces(ev):
+            if not any(e.get("ev") == "harness-failure" for e in ev[a:b]):
+                keep += ev[a:b]
+        ctx.notes.append("%d gated MQTT schedules left out, harness could not drive the broker: %s" % (len(hf), short(hf[0], 200)))
+        ev = keep
+    ctx.evals(sum(1 for e in ev if e["ev"] == "ret"))
+    # vacuity: attempts answered only after another connection ended or was accepted in between (parked across a change of the
+    # population), attempts by an id that was connected when they started, refusals
+    pend, across, refused, sameid = {}, 0, 0, 0
+    up = {}
+    for e in ev:
+        if e["ev"] == "reset":
+            pend, up = {}, {}
+        elif e["ev"] == "inv":
+            pend[e["c"]] = 0
+            sameid += e["id"] in up.values()
+            pend[e["c"] + "#id"] = e["id"]
+        elif e["ev"] == "ret":
+            across += pend.pop(e["c"], 0) > 0
+            idv = pend.pop(e["c"] + "#id", None)
+            refused += e["code"] != 0
+            if e["code"] == 0:
+                up[e["c"]] = idv
+            for k in list(pend):
+                if not k.endswith("#id"):
+                    pend[k] += e["code"] == 0
+        elif e["ev"] == "gone":
+            up.pop(e["c"], None)
+            for k in list(pend):
+                if not k.endswith("#id"):
+                    pend[k] += 1
+    if (across < 10 or refused < 5 or sameid < 5) and not ctx.violations:
+        ctx.inconclusive("C17 MQTT gated schedules are vacuous: %d attempts parked across a change of the population, %d refusals, %d attempts "
+                         "with an id that was connected" % (across, refused, sameid))
+
+    def on_reject(seg, whole, tr):
+        last = seg[-1]
+        sig = {"kind": "mqtt-gated", "ev": last.get("ev"), "inv": tr.inv or "rejected"}
+        if last.get("ev") == "ret":
+            sig["code"] = last.get("code")
+        ctx.violation(sig, "schedule with connection attempts parked in the Connect pipeline (between the early check and the registration) "
+                      "on the real broker has no linearisation the connection-cap contract allows: first unexplained event %s%s" % (
+                          short(last, 200), ", invariant %s" % tr.inv if tr.inv else ""), seg[-60:])
+
+    ok = validate_traces(ctx, "MqttConnCap_Trace", TRACE_CFG, ev, "c17m_gated", on_reject, timeout=1500)
+    ctx.traces(ok)
+    ctx.nontrivial("mqtt-cap-gated-%d" % ok)
+    ctx.notes.append("MQTT cap, gated schedules: %d attempts parked across a change of the population, %d refusals, %d attempts with a connected id"
+                     % (across, refused, sameid))
+    ctx.log("MQTT cap: %d/%d gated schedules linearised by TLC (%d attempts, %d parked across a change of the population, %d refused)" % (
+        ok, len(behs), sum(1 for e in ev if e["ev"] == "ret"), across, refused))
 
 
 def _tv(ctx):
